@@ -1028,4 +1028,93 @@ theorem Tnuc_stats_order_of_run_2D (p : Par ℝ) (f : Flags) (hNz : 0 < p.Nz) (h
   Tnuc_stats_order_2D p f T0C prof NtExp Frand cn r h (by
     rw [st2D_size]; exact Nat.mul_pos hNz hNr)
 
+
+/-! ### when exactly is the else-branch `T_kin = 273.15 K` taken (1D) -/
+
+theorem wOdd_pos (N : ℕ) (h : ℝ) (hh : 0 < h) (j : ℕ) : 0 < wOdd N h j := by
+  unfold wOdd; split_ifs <;> positivity
+
+theorem simpsonW_pos (N : ℕ) (h : ℝ) (hh : 0 < h) (j : ℕ) : 0 < simpsonW N h j := by
+  unfold simpsonW wEven
+  split_ifs <;> first | positivity | exact wOdd_pos _ _ hh _
+
+theorem nucRate_pos (p : SnowIn ℝ) (T : ℝ) (h : T < p.T_eq_l) : 0 < nucRate p.kb p.const.b p.T_eq_l T := by
+  rw [nucRate_real, if_pos h]
+  exact mul_pos (kb_pos p) (Real.rpow_pos_of_pos (by linarith) _)
+
+/-- `K_v` as the weighted sum with the explicit (positive) Simpson weights -/
+theorem Kv_eq_weighted_sum (p : SnowIn ℝ) (Nz : ℕ) (h : WFGrid p Nz) (T : Array ℝ) (hT : T.size = Nz) :
+    KvOf p (grid1D p Nz) (rateField p T) =
+      p.const.A * ∑ j ∈ Finset.range Nz,
+        simpsonW Nz (p.const.height / ((Nz - 1 : ℕ) : ℝ)) j * nucRate p.kb p.const.b p.T_eq_l (aget T j) := by
+  unfold KvOf
+  rw [simpsonA_eq_simpson]
+  have hsz : (rateField p T).toList.length = Nz := by simp [hT]
+  have := (simpson_weights_nonneg p Nz h (rateField p T).toList hsz).1
+  simp only [grid1D, linspace0A, List.toList_toArray]
+  rw [this]
+  congr 1
+  apply Finset.sum_congr rfl
+  intro j hj
+  have hj' : j < Nz := by simpa using hj
+  rw [← aget_eq_nth]
+  unfold rateField
+  rw [aget_map _ _ _ (by omega)]
+
+/-- **1D**: `K_v > 0` as soon as ONE node is supercooled (`A > 0`; all Simpson weights of the z grid are
+positive) … -/
+theorem Kv_pos_of_supercooled_1D (p : SnowIn ℝ) (Nz : ℕ) (h : WFGrid p Nz) (hA : 0 < p.const.A) (T : Array ℝ)
+    (hT : T.size = Nz) (j0 : ℕ) (hj0 : j0 < Nz) (hs : aget T j0 < p.T_eq_l) :
+    0 < KvOf p (grid1D p Nz) (rateField p T) := by
+  rw [Kv_eq_weighted_sum p Nz h T hT]
+  apply mul_pos hA
+  have hsp := grid_spacing_pos p Nz h
+  apply Finset.sum_pos'
+  · intro j _
+    exact mul_nonneg (le_of_lt (simpsonW_pos _ _ hsp _)) (nucRate_nonneg p _)
+  · exact ⟨j0, by simpa using hj0, mul_pos (simpsonW_pos _ _ hsp _) (nucRate_pos p _ hs)⟩
+
+/-- … and `K_v = 0` when no node is supercooled: the else-branch `T_kin = 273.15 K` is taken exactly when
+the product has no supercooled node at the nucleation instant – impossible for a stochastic nucleation
+(`Kv_pos_at_crossing_1D`), possible only when controlled nucleation is triggered at or above `T_eq_l`. -/
+theorem Kv_zero_of_none_supercooled_1D (p : SnowIn ℝ) (Nz : ℕ) (h : WFGrid p Nz) (T : Array ℝ) (hT : T.size = Nz)
+    (hn : ∀ j, j < Nz → p.T_eq_l ≤ aget T j) : KvOf p (grid1D p Nz) (rateField p T) = 0 := by
+  rw [Kv_eq_weighted_sum p Nz h T hT]
+  have : ∑ j ∈ Finset.range Nz,
+      simpsonW Nz (p.const.height / ((Nz - 1 : ℕ) : ℝ)) j * nucRate p.kb p.const.b p.T_eq_l (aget T j) = 0 := by
+    apply Finset.sum_eq_zero
+    intro j hj
+    have hj' : j < Nz := by simpa using hj
+    rw [nucRate_real, if_neg (not_lt.mpr (hn j hj'))]; ring
+  rw [this]; ring
+
+theorem else_branch_iff_1D (p : SnowIn ℝ) (Nz : ℕ) (h : WFGrid p Nz) (hA : 0 < p.const.A) (T : Array ℝ)
+    (hT : T.size = Nz) :
+    ¬ 0 < KvOf p (grid1D p Nz) (rateField p T) ↔ ∀ j, j < Nz → p.T_eq_l ≤ aget T j := by
+  constructor
+  · intro hK j hj
+    by_contra hlt
+    exact hK (Kv_pos_of_supercooled_1D p Nz h hA T hT j hj (not_le.mp hlt))
+  · intro hn
+    rw [Kv_zero_of_none_supercooled_1D p Nz h T hT hn]; simp
+
+
+/-- the time step the code derives, `dt = 0.4·dz²/alpha_max`, is non-negative as soon as
+`alpha_max = lambda_i/(cp_i·rho_l) ≥ 0` – discharges the `0 ≤ dt` hypothesis of the 1D theorems -/
+theorem dt_grid1D_nonneg (p : SnowIn ℝ) (Nz : ℕ) (h : 0 ≤ p.const.lambda_i / (p.const.cp_i * p.const.rho_l)) :
+    0 ≤ (grid1D p Nz).dt := by
+  simp only [grid1D, lit_real]
+  apply div_nonneg _ h
+  have := mul_self_nonneg (p.const.height / ofNat' Nz)
+  have e : ((4 : ℤ) : ℝ) / (10 : ℝ) ^ 1 = 4 / 10 := by norm_num
+  rw [e]
+  positivity
+
+/-- `E_mono_1D` with the `0 ≤ dt` hypothesis discharged from the constants -/
+theorem E_mono_1D_code (p : SnowIn ℝ) (Nz : ℕ) (h : WFGrid p Nz)
+    (hα : 0 ≤ p.const.lambda_i / (p.const.cp_i * p.const.rho_l))
+    (shelf : List ℝ) (i : ℕ) (hi : i + 1 < shelf.length) :
+    (st1D p Nz shelf i).E ≤ (st1D p Nz shelf (i + 1)).E :=
+  E_mono_1D p Nz h (dt_grid1D_nonneg p Nz hα) shelf i hi
+
 end Snow.C08
